@@ -232,12 +232,14 @@ PROPERTIES = {
     ),
     "C09": dict(
         engines="AZ",
-        claim="Libxc is not installed, so agreement with Libxc is decided against spec functions: the published closed forms of LDA exchange, PW92 (both "
+        claim="'Agrees with Libxc for all inputs' is decided against spec functions: the published closed forms of LDA exchange, PW92 (both "
               "parameter sets), VWN5, PBE / PBEsol exchange and correlation, written independently of the repository. The energy density of the real "
               "functional (through the real get_xc) is proved equal to the spec for all densities, polarisations and non-parallel spin gradients (the "
               "potentials follow from C02). The Libxc bridge (pylibxc and PySCF paths) is executed on arrays of distinct symbols with a stand-in for the "
-              "external library that checks its documented array conventions: every component is handed over and returned in the right slot. The Chachiyo "
-              "and finite-temperature functionals and SCF-level interchangeability (needs Libxc) are not covered.",
+              "external library that checks its documented array conventions: every component is handed over and returned in the right slot. Bounded "
+              "stand-ins (labelled bounded): all twelve built-ins with a Libxc twin against the real Libxc (through PySCF, which is importable here) over "
+              "11 orders of magnitude in n, |zeta| < 0.998, independent gradient directions, s in [1e-2, 50]; SCF energy and gradient built-in vs bridge. "
+              "The Chachiyo and finite-temperature closed forms are not written as spec functions (bounded comparison only).",
         note="the external libraries' array conventions are an assumed contract; the spec functions are part of the trusted base",
         modules=["contracts.c09"],
         level="proof",
